@@ -589,10 +589,10 @@ def evalS : Nat → Stmt → Nat → Bool → Store → ER
     | .whileS c b => whileLoop f c b env repl σ
     | .forS init c inc b =>
       (match init with
-       | none => forLoop f c inc b σ.envs.length repl (σ.newEnv (some env)).1
+       | none => forLoop f (forCond c) inc b σ.envs.length repl (σ.newEnv (some env)).1
        | some i =>
          (evalS f i σ.envs.length repl (σ.newEnv (some env)).1).seq fun _ σ2 =>
-           forLoop f c inc b σ.envs.length repl σ2)
+           forLoop f (forCond c) inc b σ.envs.length repl σ2)
     | .breakS line => .ok (.nil, .brk line) σ
     | .continueS line => .ok (.nil, .cont line) σ
     | .returnS line v =>
